@@ -89,12 +89,14 @@ static std::string case_text(const Case& c) { std::ostringstream o; o << c.xform
 static Case case_parse(const std::string& s) { std::istringstream i(s); Case c; size_t n; i >> c.xform >> c.writer >> n; c.cells.resize(n); for (auto& x : c.cells) i >> x.mesh >> x.type >> x.history; if (!(i >> c.ids)) c.ids = 0; return c; }
 static std::string case_json(const Case& c) { std::ostringstream o; o << "{\"persistent_ids\":\"" << (c.ids == 1 ? "2*position+1" : c.ids == 2 ? "70000+3*position" : "position") << "\",\"writer\":\"" << (c.writer == 2 ? "write_cell_data_file(no compaction)" : c.writer ? "write_cell_data_file" : "mesh_writer::write") << "\",\"coordinate_transform\":" << c.xform << ",\"cells\":["; for (size_t i = 0; i < c.cells.size(); i++) { if (i) o << ","; o << "{\"mesh\":\"" << g_meshes[c.cells[i].mesh].name << "\",\"type\":" << c.cells[i].type << ",\"history\":" << c.cells[i].history << "}"; } o << "]}"; return o.str(); }
 
-static void setup() { using namespace sc; g_meshes = {tetrahedron(), octahedron(), cube12(), icosahedron(), dented_cube(), icosphere(1), icosphere(6) /* index 6: 40962 nodes, only used by the one large population */}; g_dir = std::string(getenv("VERIF_DIR") ? getenv("VERIF_DIR") : ".") + "/build/run/C16-" + std::to_string(getpid()); std::filesystem::create_directories(g_dir); }
+static void setup() { using namespace sc; g_meshes = {tetrahedron(), octahedron(), cube12(), icosahedron(), dented_cube(), icosphere(1), icosphere(6) /* index 6: 40962 nodes, only used by the one large population */};
+    { Mesh m = octahedron(); Mesh u; u.name = "octahedron_with_a_point_no_triangle_uses"; for (size_t i = 0; i < m.nv(); i++) { if (i == 3) { u.pos.push_back(0.1); u.pos.push_back(0.2); u.pos.push_back(0.05); } for (int k = 0; k < 3; k++) u.pos.push_back(m.pos[3*i+k]); } for (unsigned t : m.tri) u.tri.push_back(t >= 3 ? t + 1 : t); g_meshes.push_back(u); }   /* index 7: a free node slot without any free face slot */
+    g_dir = scratch_base() + "/C16-" + std::to_string(getpid()); std::filesystem::create_directories(g_dir); }
 
 static void explore(Result& R) {
     const bool th = R.args.thorough(); setup(); long cases = 0, with_free = 0;
     std::vector<Case> all;
-    int nx = 2 * NS; int nm = (int)g_meshes.size() - 1;
+    int nx = 2 * NS; int nm = 6;   /* meshes 0..5 in the products; 6 (large) and 7 (unreferenced point) have their own cases */
     // single cells: every mesh x type x history x transform x writer
     for (int m = 0; m < nm; m++) for (int t = 0; t < 5; t++) for (int h = 0; h < 5; h++) for (int x = 0; x < nx; x++) for (int w = 0; w < 2; w++) { if (!th && (x % NS == 1 || (x >= NS && x % NS >= 2)) && h != 2) continue; if (h == 4 && !th && t != 0 && t != 3) continue; all.push_back({{{m, t, h}}, x, w}); }
     // pairs and triples: type combinations x a few meshes (node offsets of the second/third cell matter)
@@ -103,6 +105,9 @@ static void explore(Result& R) {
     // the uncompacted writer on every single cell with a remeshing history and on pairs (the offsets of the second cell depend on the slots of the first)
     for (int m = 0; m < nm; m++) for (int t : {0, 1, 4}) for (int h = 1; h < 5; h++) for (int x : {0, 2}) all.push_back({{{m, t, h}}, x, 2});
     for (int t1 : {0, 2}) for (int h1 : {2, 3}) for (int h2 : {0, 3}) all.push_back({{{1, t1, h1}, {2, 1, h2}}, 0, 2});
+    // an input point no triangle uses: a free node slot with no free face slot (compaction must still happen)
+    for (int t : {0, 1, 2, 4}) for (int x : {0, 2}) for (int w = 0; w < 3; w++) all.push_back({{{7, t, 0}}, x, w});
+    for (int w = 0; w < 2; w++) { all.push_back({{{7, 0, 0}, {1, 2, 0}}, 0, w}); all.push_back({{{2, 0, 2}, {7, 1, 0}, {7, 0, 0}}, 0, w}); }
     // one large population: two cells of 40962 nodes / 81920 triangles each (point and cell numbers beyond 16 bits, offsets of the second cell beyond 32767)
     for (int w = 0; w < 2; w++) all.push_back({{{6, 0, 0}, {6, 2, 0}}, 0, w});
     { size_t n0 = all.size(); for (size_t i = 0; i < n0; i++) if (all[i].cells.size() >= 2 && (th || i % 2 == 0)) { Case c = all[i]; c.ids = 1; all.push_back(c); if (i % 4 == 0) { c.ids = 2; all.push_back(c); } } }   // the same populations with persistent ids that differ from the list positions
